@@ -357,7 +357,38 @@ func runC13(c *Ctx) {
 		owner ssa.Value
 	}
 	var sites []site
-	rowRender := c.Method(c.Named("", "Row"), true, "invokeRenderCallbacks")
+	rowRender := c.MethodOpt(c.Named("", "Row"), true, "invokeRenderCallbacks")
+	if rowRender == nil {
+		// by its role: the function InvokeRenderCallbacks calls, inside its loop over the table's rows, with the row
+		if irc := c.MethodOpt(c.Named("", "ATable"), true, "InvokeRenderCallbacks"); irc != nil {
+			rowsF := c.FieldOpt(c.Named("", "ATable"), "rows")
+			eachInstr(irc, func(in ssa.Instruction) {
+				call, ok := in.(*ssa.Call)
+				if !ok || loopDepth(in.Block()) == 0 {
+					return
+				}
+				g := call.Call.StaticCallee()
+				if g == nil || !inModule(g) || g.Blocks == nil {
+					return
+				}
+				for _, a := range call.Call.Args {
+					if u, isU := a.(*ssa.UnOp); isU && u.Op == token.MUL {
+						if ia, isIA := u.X.(*ssa.IndexAddr); isIA {
+							if f, _ := loadedField(ia.X); f == rowsF && rowsF != nil {
+								rowRender = g
+							}
+						}
+					}
+				}
+			})
+			if rowRender != nil {
+				c.noteRenamed("func tabular.Row.invokeRenderCallbacks -> " + FuncName(rowRender) + " (by its role in InvokeRenderCallbacks)")
+			}
+		}
+		if rowRender == nil {
+			c.R.AnchorMissing("method Row.invokeRenderCallbacks")
+		}
+	}
 	invW := invokeWrappers(c, invoke)
 	for _, fn := range c.LibFuncs() {
 		if _, isW := invW[fn]; isW {
@@ -647,7 +678,7 @@ func runC13(c *Ctx) {
 	for _, s := range sites {
 		var holder ssa.Value
 		if s.role == "rows" {
-			holder = callCommon(s.in).Args[0]
+			holder = rowArgOf(callCommon(s.in))
 		} else if la, isInv := logicalInvoke(s.in, invoke, invW); !isInv {
 			continue
 		} else if _, b := loadedField(la[0]); b != nil {
@@ -726,7 +757,7 @@ func runC13(c *Ctx) {
 			switch {
 			case s.role == "rows":
 				if call, ok := s.in.(*ssa.Call); ok && len(call.Call.Args) > 0 {
-					target, kind = call.Call.Args[0], "Row"
+					target, kind = rowArgOf(&call.Call), "Row"
 				}
 			case strings.HasSuffix(s.role, "/column") && strings.HasPrefix(s.role, "column/"):
 				target, kind = s.owner, "column"
@@ -761,9 +792,15 @@ func runC13(c *Ctx) {
 		}
 		wantT := s.role[strings.Index(s.role, "/")+1:]
 		r.Check("R13.3", FuncName(s.fn), "target of "+cnt+" has the type the callbacks were registered for", s.in.Pos(), tname == wantT, "target is *"+tname+", registered for "+wantT)
-		root, _ := addrPath(inner)
+		root, steps := addrPath(inner)
 		isLocal := false
-		if al, isAl := root.(*ssa.Alloc); isAl {
+		throughPointer := false
+		for _, stp := range steps {
+			if stp.Deref {
+				throughPointer = true // the path leaves the local through a pointer it holds: what is reached is not part of the copy
+			}
+		}
+		if al, isAl := root.(*ssa.Alloc); isAl && !throughPointer {
 			// a local that holds a COPY of an existing object (whole-value store of something loaded/ranged),
 			// as opposed to an object built here by a composite literal
 			for _, rr := range referrersOf(al) {
@@ -1324,3 +1361,17 @@ func elemOfFullLoop(c *Ctx, fn *ssa.Function, v ssa.Value, list *types.Var, colA
 // condInsideLoopSkipping: placeholder for loops whose body is entered conditionally; the unconditional-firing rule
 // above already reports guarded invocations, so nothing more is required here.
 func condInsideLoopSkipping(b *ssa.BasicBlock) bool { return false }
+
+// rowArgOf: the *Row handed to the per-row render function (its receiver, or an argument when the function hangs
+// on something else).
+func rowArgOf(cc *ssa.CallCommon) ssa.Value {
+	for _, a := range cc.Args {
+		if pt, ok := a.Type().(*types.Pointer); ok && isNamed(pt.Elem(), modPath, "Row") {
+			return a
+		}
+	}
+	if len(cc.Args) > 0 {
+		return cc.Args[0]
+	}
+	return nil
+}
